@@ -853,3 +853,93 @@ Proof.
   eexists. split; [vm_compute; reflexivity|]. split; [vm_compute; reflexivity|].
   split; vm_compute; reflexivity.
 Qed.
+
+(* ------------------------------------------------------------------ the whole command-line path
+   -g value -> ParseCompactArguments -> checkOptions -> Pack -> HandleOptions (SplitN) *)
+
+Lemma split_first_fst_no_sep sep s : ~ In sep (fst (split_first sep s)).
+Proof.
+  induction s as [|b s IH]; cbn [split_first fst In]; [tauto|].
+  destruct (Byte.eqb b sep) eqn:E; [cbn [fst In]; tauto|].
+  destruct (split_first sep s) as [h t]. cbn [fst In] in *.
+  intros [H|H]; [|tauto]. subst. rewrite (proj2 (byte_eqb_eq sep sep) eq_refl) in E. discriminate.
+Qed.
+
+Lemma parse_arg_name a : ~ In ch_eq (fst (parse_arg a)).
+Proof.
+  unfold parse_arg. pose proof (split_first_fst_no_sep ch_eq a) as H.
+  destruct (split_first ch_eq a) as [n r]. exact H.
+Qed.
+
+Lemma parse_compact_names g o : In o (snd (parse_compact g)) -> ~ In ch_eq (fst o).
+Proof.
+  unfold parse_compact. destruct (split_first ch_colon g) as [lang [rest|]]; cbn [snd]; [|intros []].
+  rewrite in_map_iff. intros [a [<- _]]. apply parse_arg_name.
+Qed.
+
+Definition template_name_plain : bool := negb (existsb (Byte.eqb ch_eq) template_name).
+Lemma template_name_plain_true : template_name_plain = true. Proof. vm_compute. reflexivity. Qed.
+
+Lemma template_name_no_eq : ~ In ch_eq template_name.
+Proof.
+  pose proof template_name_plain_true as H. unfold template_name_plain in H. apply negb_true_iff in H.
+  intro Hin. assert (existsb (Byte.eqb ch_eq) template_name = true); [|congruence].
+  apply existsb_exists. exists ch_eq. split; [auto | now apply byte_eqb_eq].
+Qed.
+
+Lemma check_options_names opts :
+  (forall o, In o opts -> ~ In ch_eq (fst o)) -> forall o, In o (check_options opts) -> ~ In ch_eq (fst o).
+Proof.
+  intros H o. unfold check_options.
+  destruct (get_feat ix_nested (final_state opts default_cfg)); auto.
+  destruct (existsb (fun o0 => beqb (fst o0) template_name) opts); auto.
+  rewrite in_app_iff. intros [Hin|[<-|[]]]; [auto | cbn [fst]; apply template_name_no_eq].
+Qed.
+
+Lemma targets_names g o : In o (targets g) -> ~ In ch_eq (fst o).
+Proof. unfold targets. apply check_options_names. apply parse_compact_names. Qed.
+
+Lemma unpack_pack opts : (forall o, In o opts -> ~ In ch_eq (fst o)) -> map parse_arg (map pack opts) = opts.
+Proof.
+  induction opts as [|o r IH]; intro H; cbn [map]; auto.
+  rewrite parse_pack by (apply H; now left). f_equal. apply IH. intros o' Ho. apply H. now right.
+Qed.
+
+(* what the backend does with the packed options is HandleOptions on the options themselves *)
+Lemma handle_packed_eq opts : (forall o, In o opts -> ~ In ch_eq (fst o)) ->
+  handle_packed opts = handle opts default_cfg.
+Proof. intro H. unfold handle_packed. now rewrite unpack_pack. Qed.
+
+Lemma command_line_handle g : handle_packed (targets g) = handle (targets g) default_cfg.
+Proof. apply handle_packed_eq. apply targets_names. Qed.
+
+(* nested structs force slim, stated on the outcome: if the accepted configuration has nested
+   structs on and no option named template was given, the template is slim *)
+Lemma nested_forces_slim_outcome opts c :
+  handle (check_options opts) default_cfg = Ok c ->
+  get_feat ix_nested c = true ->
+  (forall o, In o opts -> fst o <> template_name) ->
+  c_template c = slim /\ get_feat ix_deep_equal c = false.
+Proof.
+  intros H Hn Hno.
+  destruct (get_feat ix_nested (final_state opts default_cfg)) eqn:E.
+  - now apply (nested_forces_slim opts c).
+  - exfalso. rewrite (check_options_keeps opts (or_introl E)) in H.
+    destruct (handle_inv _ _ _ H) as (c1 & Hrun & -> & _).
+    unfold final_state in E. rewrite Hrun in E. congruence.
+Qed.
+
+Lemma command_line_nested g c :
+  handle_packed (targets g) = Ok c ->
+  get_feat ix_nested c = true ->
+  (forall o, In o (snd (parse_compact g)) -> fst o <> template_name) ->
+  c_template c = slim /\ get_feat ix_deep_equal c = false.
+Proof.
+  rewrite command_line_handle. unfold targets. apply nested_forces_slim_outcome.
+Qed.
+
+(* and the result of any accepted -g value obeys last-wins over the options handed to the backend *)
+Lemma command_line_last_wins g c :
+  Forall (fun o => documented (fst o)) (targets g) ->
+  handle_packed (targets g) = Ok c -> forall s, get s c = expected default_of s (targets g).
+Proof. intros Hd H. rewrite command_line_handle in H. now apply last_wins. Qed.
